@@ -194,7 +194,7 @@ func generate(r *hxlib.Run, emit func(hxlib.Case)) {
 	g.expiredKeyStorm()
 	g.rawTCP()
 	g.bridgeScope()
-	for i := 0; i < r.Budget(5000, 80000); i++ {
+	for i := 0; i < r.Budget(2800, 80000); i++ {
 		g.history()
 	}
 	for i := 0; i < r.Budget(2500, 40000); i++ {
